@@ -3,6 +3,7 @@
 from __future__ import annotations
 
 from decimal import Decimal
+from decimal import localcontext
 from operator import getitem
 from typing import TYPE_CHECKING
 from typing import Any
@@ -37,6 +38,30 @@ def _getitem(obj: Any, key: object, default: object = None) -> Any:
         if not hasattr(obj, "__getitem__"):
             raise
         return default
+
+
+def _add(numbers: Iterable[int | Decimal]) -> int | Decimal:
+    """Return the sum of _numbers_, whatever their order and magnitude.
+
+    Integers are added exactly. Decimals are added with enough digits for the
+    exact sum of any floats and those integers, not the 28 of the default decimal
+    context, which would drop the low digits of a large partial sum.
+    """
+    integers = 0
+    decimals: list[Decimal] = []
+
+    for number in numbers:
+        if isinstance(number, Decimal):
+            decimals.append(number)
+        else:
+            integers += number
+
+    if not decimals:
+        return integers
+
+    with localcontext() as ctx:
+        ctx.prec = max(ctx.prec, 800 + integers.bit_length() // 3)
+        return sum(decimals, Decimal(integers))
 
 
 class SumFilter:
@@ -97,11 +122,11 @@ class SumFilter:
             # until the generator finishes, which must not depend on whether
             # converting the items fails.
             items = list(key.map(context, left))
-            rv = sum(decimal_arg(item, 0) for item in items if not is_undefined(item))
+            rv = _add(decimal_arg(item, 0) for item in items if not is_undefined(item))
         elif key is not None and not is_undefined(key):
-            rv = sum(decimal_arg(_getitem(elem, key, 0), 0) for elem in left)
+            rv = _add(decimal_arg(_getitem(elem, key, 0), 0) for elem in left)
         else:
-            rv = sum(decimal_arg(elem, 0) for elem in left)
+            rv = _add(decimal_arg(elem, 0) for elem in left)
 
         if isinstance(rv, Decimal):
             return float(rv)
